@@ -100,7 +100,7 @@ class Mirror:
 
 
 def sparse_seq(rng, tier):
-    w = rng.choice([3, 5, 9, 17, 30, 63, 64, 65, 70, 100, 129, 150])
+    w = rng.choice([3, 5, 9, 17, 30, 63, 64, 65, 70, 100, 129, 150, 150, 210])
     h = w + rng.below(8)
     nd = rng.choice([0, 0, 1, 2, min(w - 1, 3)] + ([64] if w >= 70 else []) + ([128, 64] if w >= 140 else []))
     M = Mirror(h, w, nd)
@@ -141,7 +141,7 @@ def sparse_seq(rng, tier):
             if col not in M.stale:
                 s = rng.below(h)
                 ops.append([9, col, s, rng.range(s, h)])
-        elif k == 6 and M.fd() >= 2 and M.nd < 140:
+        elif k == 6 and M.fd() >= 2 and M.nd < 200:
             ops.append([12, M.fd() - 1])
             M.nd += 1
         elif k == 7 and M.fd() >= 1:
@@ -170,7 +170,7 @@ def sparse_seq(rng, tier):
             ops.append([2, rng.below(h), rng.range(M.fd(), w - 1)])
     # wide matrices: keep freezing until the dense tail spans a third word per row (129+ columns)
     if w >= 129:
-        while M.nd < 132 and M.fd() >= 2:
+        while M.nd < (132 if w < 200 else 196) and M.fd() >= 2:
             ops.append([12, M.fd() - 1])
             M.nd += 1
             if rng.below(6) == 0:
@@ -178,6 +178,13 @@ def sparse_seq(rng, tier):
     # un-indexed phase
     ops.append([14])
     M.indexed = False
+    # full read-back of every row (sparse part through the row iterator, dense tail through the packed sub-row):
+    # a cell corrupted by a freeze / swap / elimination in ANY row is seen, not only in the rows later ops happen to read
+    for i in range(M.h):
+        if M.fd() >= 1:
+            ops.append([8, i, 0, M.fd()])
+        if M.nd > 0:
+            ops.append([10, i, M.fd()])
     for _ in range(rng.range(5, 30)):
         k = rng.below(10)
         if k < 4 and M.h >= 2:
